@@ -218,15 +218,7 @@ class MonteCarlo(SingleDriver, Generic[MoveType, CriteriaType]):
                 2,
             )
 
-        try:
-            self.context.last_results = self.atoms.calc.results  # type: ignore[try-attr]
-        except AttributeError:
-            warn(
-                "Atoms object does not have calculator attached, or does not support the `results` attribute.",
-                UserWarning,
-                2,
-            )
-            self.context.last_results = {}
+        Context.save_state(self.context)
 
     def run(self, steps=100_000_000) -> None:
         """
